@@ -1,5 +1,5 @@
 """C07: secondary indexes never change what a query returns. Same oracle and cases as C08, executed on nodes with
-ten index configurations (ascending/descending, single/composite, unique), created before or after the data, with the
+twelve index configurations (ascending/descending, single/composite, unique), created before or after the data, with the
 contents reached through a create/update/delete history; plus the unique-index acceptance rule (spec/UniqueIndex.tla)."""
 import json, os
 import vlib
@@ -32,8 +32,8 @@ def check(run, replay):
     L = [json.loads(json.loads(l)) for l in open(cases).read().strip().split("\n")[:2]]
     samples = [{"docs": c["docs"], "q": c["q"], "expect": c["expect"]} for c in L]
     cov = {"traces_validated_against_impl": executed, "list_queries_served_from_an_index": used, "time_travel_filter_queries": tts, "samples": samples,
-           "index_sets": ["i asc", "i desc", "s asc", "s desc + b", "composite(s,i)", "composite(i desc,s)", "j asc", "j desc", "composite(j,s)", "unique k + j + s + i + b"],
-           "rule": "QueryGen cases (see C08) executed on a node with one of 10 index sets (rotating), indexes created before the data, after the data, and with the contents reached through creates, updates and a delete; the result must equal Result(docs,q) of spec/Query.tla, which does not know about indexes"}
+           "index_sets": ["i asc", "i desc", "s asc", "s desc + b", "composite(s,i)", "composite(i desc,s)", "j asc", "j desc", "composite(j,s)", "a (array)", "composite(s,a)", "unique k + j + s + i + b"],
+           "rule": "QueryGen cases (see C08) executed on a node with one of 12 index sets (rotating), indexes created before the data, after the data, and with the contents reached through creates, updates and a delete; the result must equal Result(docs,q) of spec/Query.tla, which does not know about indexes"}
     run.finish("model_checking", viol, cov,
                ["the oracle is the index-free reference semantics; explain(type: execute) is used only to count how many queries really took the index path",
                 "array, JSON and relation indexes are covered by C09 / later rounds, not by this check"])
